@@ -49,6 +49,31 @@ fn cases(tier: Tier) -> Vec<(char, Vec<u8>, String)> {
     m.extend_from_slice(&[0x53, 0x2A, 0x4D, 0x18, 3, 0, 0, 0, 1, 2, 3]);
     m.extend_from_slice(&a);
     v.push(('D', m, "frame, skippable frame, frame".into()));
+    // histories on one decoder with dictionaries registered: every sequence of <= 3/4 frames of a small world
+    match crate::c09::history_world() {
+        Ok((dicts, frames)) => {
+            for d in dicts {
+                v.push(('X', d, "register dictionary".into()));
+            }
+            for (name, f) in &frames {
+                v.push(('F', f.clone(), format!("define frame: {name}")));
+            }
+            let n = frames.len();
+            let depth = tier.pick(3u32, 4);
+            for len in 1..=depth {
+                for mut k in 0..n.pow(len) {
+                    let mut seq = vec![];
+                    for _ in 0..len {
+                        seq.push((k % n) as u8);
+                        k /= n;
+                    }
+                    let name = format!("history on one decoder: {:?}", seq.iter().map(|i| frames[*i as usize].0.as_str()).collect::<Vec<_>>());
+                    v.push(('H', seq, name));
+                }
+            }
+        }
+        Err(e) => v.push(('D', vec![], format!("MODEL: history world unavailable: {e}"))),
+    }
     v
 }
 
@@ -149,8 +174,8 @@ pub fn main(tier: Tier, replay: Option<Value>) -> i32 {
     for (i, c) in cs.iter().enumerate() {
         let lines: Vec<&str> = outputs.iter().map(|o| o[i + 2].splitn(3, ' ').nth(2).unwrap_or("")).collect();
         run.add("evaluations", 4);
-        if c.0 == 'D' {
-            // all four decoders agree (bytes and error class)
+        if c.0 != 'C' {
+            // all four decoders agree (bytes and error class; for histories: the outcome of every frame)
             if lines.iter().any(|l| *l != lines[0]) {
                 run.violation(Violation { identity: format!("decoder_differs:{}", if lines[0] == lines[1] && lines[2] == lines[3] { "std_vs_nostd" } else { "hash_vs_nohash" }), what: format!("[{}] decoder outcome differs between builds: std+hash [{}], std [{}], hash [{}], none [{}]", c.2, lines[0], lines[1], lines[2], lines[3]), replay: json!({"case": c.2, "frame": crate::ev::show(&c.1)}) });
             } else if lines[0].starts_with("ok") {
